@@ -209,24 +209,42 @@ func (g *Engine) Stop() {
 	g.mux.Unlock()
 
 	g.wgConn.Done()
-	for c := range conns {
-		if c != nil {
-			cc := c
-			g.Async(func() {
-				_ = cc.Close()
-			})
+	closeAll := func() {
+		for c := range conns {
+			if c != nil {
+				cc := c
+				g.Async(func() {
+					_ = cc.Close()
+				})
+			}
+		}
+		for _, c := range connsUnix {
+			if c != nil {
+				cc := c
+				g.Async(func() {
+					_ = cc.Close()
+				})
+			}
 		}
 	}
-	for _, c := range connsUnix {
-		if c != nil {
-			cc := c
-			g.Async(func() {
-				_ = cc.Close()
-			})
-		}
-	}
+	closeAll()
 
-	g.wgConn.Wait()
+	// A connection that was being accepted, added or dialed while the pass
+	// above ran may have been registered behind it: repeat the pass until
+	// every connection has delivered its close notification.
+	chDone := make(chan struct{})
+	go func() {
+		g.wgConn.Wait()
+		close(chDone)
+	}()
+	for waiting := true; waiting; {
+		select {
+		case <-chDone:
+			waiting = false
+		case <-time.After(time.Millisecond * 20):
+			closeAll()
+		}
+	}
 
 	g.onStop()
 
